@@ -499,6 +499,16 @@ func TMod(a, b *Term) *Term {
 	return raw("tmod", SInt, a, b)
 }
 
+// Elt is the index of element i of a slice whose window starts at off. It is an uninterpreted function with the
+// axiom elt(a,b) = a+b so that quantifier patterns over slice elements match syntactically (E-matching does not
+// work modulo linear arithmetic normalisation).
+func Elt(off, i *Term) *Term {
+	if off.isInt() && i.isInt() {
+		return Add(off, i)
+	}
+	return App("elt", SInt, off, i)
+}
+
 func Select(arr, idx *Term) *Term {
 	_, es, ok := arrayParts(arr.sort)
 	if !ok {
@@ -718,6 +728,10 @@ func (t *Term) write(sb *strings.Builder, named map[int]string) {
 		}
 	case "true", "false":
 		sb.WriteString(t.op)
+	case "constarr":
+		sb.WriteString("((as const " + string(t.sort) + ") ")
+		t.args[0].write(sb, named)
+		sb.WriteString(")")
 	case "forall", "exists":
 		sb.WriteString("(" + t.op + " (")
 		for _, b := range t.binds {
@@ -803,11 +817,15 @@ func Script(asserts []*Term, getModel bool) string {
 		visit(a)
 	}
 	usedNames["slen"] = false
+	eltUsed := usedNames["elt"]
 	for _, n := range TS.declOrder {
 		if usedNames[n] {
 			sb.WriteString(TS.decls[n])
 			sb.WriteByte('\n')
 		}
+	}
+	if eltUsed {
+		sb.WriteString("(assert (forall ((a Int) (b Int)) (! (= (elt a b) (+ a b)) :pattern ((elt a b)))))\n")
 	}
 	// string literal facts
 	var lits []string
@@ -817,6 +835,9 @@ func Script(asserts []*Term, getModel bool) string {
 			lits = append(lits, t.name)
 			fmt.Fprintf(&sb, "(assert (= (slen %s) %d))\n", t.name, len(s))
 		}
+	}
+	if e, ok := TS.strLits[""]; ok && usedNames[e.name] {
+		fmt.Fprintf(&sb, "(assert (forall ((s Str)) (! (=> (= (slen s) 0) (= s %s)) :pattern ((slen s)))))\n", e.name)
 	}
 	if len(lits) > 1 {
 		sort.Strings(lits)
